@@ -596,6 +596,8 @@ class FileCache(CacheMixin):
             return None
         state.metadata["status"] = "ready"
 
+        # remove the previous entry: its data file is named after the type of the previous value
+        self.remove(state.query)
         if not self.store_metadata(state.metadata):
             return False
 
